@@ -71,6 +71,16 @@ int _ZNKSt7__cxx1112basic_stringIcSt11char_traitsIcESaIcEE7compareEPKc(const Str
 { size_t m = strlen(c), k = s->n < m ? s->n : m; int r = memcmp(s->p, c, k); if (r) return r; return s->n < m ? -1 : s->n > m ? 1 : 0; }
 size_t _ZNKSt7__cxx1112basic_stringIcSt11char_traitsIcESaIcEE4findEcm(const Str* s, char c, size_t pos)
 { for (size_t i = pos; i < s->n; i++) if (s->p[i] == c) return i; return (size_t)-1; }
+size_t _ZNKSt7__cxx1112basic_stringIcSt11char_traitsIcESaIcEE4findEPKcmm(const Str* s, const char* c, size_t pos, size_t n)
+{ if (n == 0) return pos <= s->n ? pos : (size_t)-1; if (pos >= s->n) return (size_t)-1; for (size_t i = pos; i + n <= s->n; i++) if (memcmp(s->p + i, c, n) == 0) return i; return (size_t)-1; }
+size_t _ZNKSt7__cxx1112basic_stringIcSt11char_traitsIcESaIcEE5rfindEcm(const Str* s, char c, size_t pos)
+{ if (!s->n) return (size_t)-1; size_t i = s->n - 1; if (pos < i) i = pos; for (;; i--) { if (s->p[i] == c) return i; if (!i) break; } return (size_t)-1; }
+int _ZNKSt7__cxx1112basic_stringIcSt11char_traitsIcESaIcEE7compareEmmRKS4_(const Str* s, size_t pos, size_t n, const Str* o)
+{ if (pos > s->n) abort(); size_t rl = s->n - pos; if (n < rl) rl = n; size_t k = rl < o->n ? rl : o->n; int r = k ? memcmp(s->p + pos, o->p, k) : 0; if (r) return r; return rl < o->n ? -1 : rl > o->n ? 1 : 0; }
+int _ZNKSt7__cxx1112basic_stringIcSt11char_traitsIcESaIcEE7compareEmmPKc(const Str* s, size_t pos, size_t n, const char* c)
+{ if (pos > s->n) abort(); size_t rl = s->n - pos; if (n < rl) rl = n; size_t m = strlen(c), k = rl < m ? rl : m; int r = k ? memcmp(s->p + pos, c, k) : 0; if (r) return r; return rl < m ? -1 : rl > m ? 1 : 0; }
+int _ZNKSt7__cxx1112basic_stringIcSt11char_traitsIcESaIcEE7compareERKS4_(const Str* s, const Str* o)
+{ size_t k = s->n < o->n ? s->n : o->n; int r = k ? memcmp(s->p, o->p, k) : 0; if (r) return r; return s->n < o->n ? -1 : s->n > o->n ? 1 : 0; }
 Str* _ZNSt7__cxx1112basic_stringIcSt11char_traitsIcESaIcEEaSEPKc(Str* s, const char* c)
 { size_t n = strlen(c); str_reserve(s, n); memcpy(s->p, c, n + 1); s->n = n; return s; }
 Str* _ZNSt7__cxx1112basic_stringIcSt11char_traitsIcESaIcEEaSEOS4_(Str* s, Str* o)
